@@ -426,6 +426,27 @@ func c17dupSweep(st *Stats) *Viol {
 			return v
 		}
 	}
+	// used nonces in the order an export lists them (by domain, then nonce), hundreds of entries, one of them repeated
+	// somewhere: the shape a real upgrade genesis has
+	for round := 0; round < 1500; round++ {
+		g := base()
+		per := 30 + next(96)
+		for d := 0; d < 8; d++ {
+			for k := 0; k < per; k++ {
+				g.UsedNoncesList = append(g.UsedNoncesList, types.Nonce{SourceDomain: uint32(d), Nonce: uint64(k)})
+			}
+		}
+		dup := g.UsedNoncesList[next(len(g.UsedNoncesList))]
+		at := next(len(g.UsedNoncesList) + 1)
+		g.UsedNoncesList = append(g.UsedNoncesList[:at], append([]types.Nonce{dup}, g.UsedNoncesList[at:]...)...)
+		n++
+		if err := g.Validate(); err == nil {
+			raw := json.RawMessage(chain.Codec().MustMarshalJSON(g))
+			v := viol("C17", 0, fmt.Sprintf("validation accepts an export-ordered used-nonce list of %d entries with (%d, %d) listed twice", len(g.UsedNoncesList), dup.SourceDomain, dup.Nonce), "rejected", "accepted")
+			saveFail("C17", "c17-genesis", raw, v)
+			return v
+		}
+	}
 	st.Class("duplicate-in-long-list", n)
 	st.mu.Lock()
 	st.Evaluations += n
